@@ -75,6 +75,7 @@ Definition find_im (ptn_empty : bool) (si : Z) : dres * Z :=
     let r := api true p fuel s si B in
     match a_res r with
     | MFuel => (DFuel, 0)
+    | MPanic => (DPanic, 0)
     | MNil => (DNil, a_used r)
     | MCaps [] => (DNil, a_used r)
     | MCaps (first :: rest) =>
@@ -88,6 +89,7 @@ Definition match_im (si : Z) : dres * Z :=
   let r := api true p fuel s si B in
   match a_res r with
   | MFuel => (DFuel, 0)
+  | MPanic => (DPanic, 0)
   | MNil => (pushCaptures [], a_used r)
   | MCaps l => (pushCaptures l, a_used r)
   end.
@@ -99,6 +101,7 @@ Fixpoint gm_iter (n : nat) (si : Z) (allowEmpty : bool) : dres * Z * bool :=
   | S n' =>
     match a_res (api false p fuel s si B) with
     | MFuel => (DFuel, si, allowEmpty)
+    | MPanic => (DPanic, si, allowEmpty)
     | MNil | MCaps [] => (DNil, si, allowEmpty)
     | MCaps (((st, en) :: _) as l) =>
       if allowEmpty || negb (st =? si) || negb (en =? si) then
@@ -158,7 +161,7 @@ Record gstate := mkG {
   g_si : Z; g_sj : Z; g_sb : list Z; g_wrote : bool; g_count : Z; g_allow : bool;
   g_skipped : bool }.
 
-(* the main loop of gsub; maxn = -1 when the 4th argument is absent *)
+(* the main loop of gsub; maxn = gsub_n of the 4th argument *)
 Fixpoint gsub_loop (n : nat) (repl : list Z) (maxn : Z) (g : gstate) : dres * gstate :=
   match n with
   | O => (DFuel, g)
@@ -167,6 +170,7 @@ Fixpoint gsub_loop (n : nat) (repl : list Z) (maxn : Z) (g : gstate) : dres * gs
     else
       match a_res (api true p fuel s (g_si g) B) with     (* pat.MatchFromStart *)
       | MFuel => (DFuel, g)
+      | MPanic => (DPanic, g)
       | MNil | MCaps [] => (DNil, g)
       | MCaps (((st, en) :: _) as l) =>
         let doit := g_allow g || negb (st =? g_si g) || negb (en =? g_si g) in
@@ -191,8 +195,12 @@ Fixpoint gsub_loop (n : nat) (repl : list Z) (maxn : Z) (g : gstate) : dres * gs
   end.
 
 (* result string, count, flag: the loop skipped an empty match *)
-Definition gsub_im (repl : list Z) (maxn : Z) : dres * bool :=
-  match gsub_loop (S (length s) + 2) repl maxn (mkG 0 0 [] false 0 true false) with
+(* the 4th argument: absent -> n = -1 (no limit); given -> if n < 0 { n = 0 } *)
+Definition gsub_n (maxn : option Z) : Z :=
+  match maxn with None => -1 | Some n => if n <? 0 then 0 else n end.
+
+Definition gsub_im (repl : list Z) (maxn : option Z) : dres * bool :=
+  match gsub_loop (S (length s) + 2) repl (gsub_n maxn) (mkG 0 0 [] false 0 true false) with
   | (DNil, g) =>
     let res :=
       if negb (g_wrote g) then Some s
@@ -290,7 +298,7 @@ Fixpoint expand_s (repl : list Z) (whole : list Z) (caps_ : list cval) : option 
   | [] => (None, [])
   end.
 
-(* str_gsub; maxn < 0 encodes "absent" = len + 1 *)
+(* str_gsub; maxn = max_s *)
 Fixpoint gsub_sloop (n : nat) (repl : list Z) (maxn : Z) (src lastmatch : Z) (cnt : Z) (acc : list Z)
   : dres :=
   match n with
@@ -329,6 +337,7 @@ Fixpoint gsub_sloop (n : nat) (repl : list Z) (maxn : Z) (src lastmatch : Z) (cn
       end
   end.
 
-Definition gsub_s (repl : list Z) (maxn : Z) : dres :=
-  gsub_sloop (2 * (S (length s)) + 2) repl (if maxn <? 0 then slen s + 1 else maxn) 0 (-1) 0 [].
+(* max_s = luaL_optinteger(L, 4, srcl + 1): absent = len + 1; n <= 0 = no replacement *)
+Definition gsub_s (repl : list Z) (maxn : option Z) : dres :=
+  gsub_sloop (2 * (S (length s)) + 2) repl (match maxn with None => slen s + 1 | Some n => n end) 0 (-1) 0 [].
 End S.
